@@ -26,6 +26,11 @@ pub enum Op {
     Burst { n: u16, seed: u64 },
     /// many hashed keys (only generated for large lg_k, to get past set mode)
     BigBurst { n: u32, seed: u64 },
+    /// one coupon for every register, all with exactly this value
+    Fill { val: u8 },
+    /// hashed update with a u128 item (hi, lo) through the public update; the generator computes items whose
+    /// MurmurHash3 digest has a chosen slot and a chosen number of leading zeros (register values up to 63)
+    Key128 { hi: u64, lo: u64 },
 }
 
 #[derive(Debug, Clone, Serialize, Deserialize)]
@@ -56,6 +61,14 @@ pub fn op_strategy(heavy: bool) -> impl Strategy<Value = Op> {
         sweep_w => (1u8..=50, any::<u64>()).prop_map(|(base, seed)| Op::Sweep { base, seed }),
         3 => (1u16..=2000, any::<u64>()).prop_map(|(n, seed)| Op::Burst { n, seed }),
         big_w => (20_000u32..=120_000, any::<u64>()).prop_map(|(n, seed)| Op::BigBurst { n, seed }),
+        sweep_w / 2 => (1u8..=63).prop_map(|val| Op::Fill { val }),
+        8 => (any::<u64>(), value_strategy(), any::<u64>()).prop_map(|(h1, val, r)| {
+            // h2 with exactly val - 1 leading zeros (val = 63: 62 or more)
+            let lz = (val as u32).clamp(1, 63) - 1;
+            let h2 = if lz >= 62 { r >> 62 >> (r & 1) } else { ((1u64 << 63) | (r >> 1)) >> lz };
+            let it = refhash::u128_item_for(h1, h2, refhash::DEFAULT_SEED);
+            Op::Key128 { hi: (it >> 64) as u64, lo: it as u64 }
+        }),
     ]
 }
 
@@ -114,6 +127,12 @@ pub fn expand(op: &Op, lg_k: u8, history: &[Vec<u32>], out: &mut Vec<u32>) {
                 out.push(refhash::hll_coupon(&sm.next().to_le_bytes()));
             }
         }
+        Op::Fill { val } => {
+            for s in 0..(1u32 << lg_k) {
+                out.push(((*val as u32).clamp(1, 63) << 26) | s);
+            }
+        }
+        Op::Key128 { hi, lo } => out.push(refhash::hll_coupon(&(((*hi as u128) << 64) | *lo as u128).to_le_bytes())),
     }
 }
 
@@ -133,6 +152,7 @@ pub fn apply(sk: &mut HllSketch, op: &Op, coupons: &[u32]) {
                 sk.update(sm.next());
             }
         }
+        Op::Key128 { hi, lo } => sk.update(((*hi as u128) << 64) | *lo as u128),
         _ => {
             for &c in coupons {
                 sk.verif_update_with_coupon(c);
